@@ -1048,7 +1048,7 @@ def run(ctx: vlib.Ctx):
         "CodeBuilder.dataclass_fields (K5): classes are abstracted to getattr(cls, '__dataclass_fields__') per MRO entry, own annotated names and cls.__dict__; x[-1:0:-1] / x[1:] are named primitives validated against CPython; that @dataclass fills __dataclass_fields__ as CPython does is not modelled (the real-class runs with inherited / re-declared fields cover it)",
         "positions below a field (Positions.v, K5PKernel.compile): translated = Registry.get, the first handler, the spec.copy of the NewType / Optional / collection-element / Union-member / tuple-item / NamedTuple-field / TypedDict-key descent sites, the class handed to get_(un)pack_method_flags at the dataclass and Self call sites, get_pack_method_flags (K8) and get_unpack_method_flags (K5P); hand-written glue (tied by the real-class path cases only) = which descent site a type takes (is_new_type / is_optional / collection / union dispatch of pack_/unpack_special_typing_primitive and *_collection), that a declined node continues with that site, the fresh ValueSpec of a dataclass field (checked textually), Tuple[Self, ...] treated like a collection element, and that the generated method runs with `dialect` = the forwarded keyword",
         "which descent site a type takes: K5D translates the if/elif chains of pack_/unpack_special_typing_primitive and pack_/unpack_collection over their own test expressions (kept as text); the outcome of each test for a concrete type is computed by the library's predicates in the harness (K5D-dispatch-vs-python) - the predicates themselves (is_new_type, is_optional, issubclass ...) and the registry order between the handlers other than special-before-collection are not modelled",
-        "RegistryWalk.compile_r (round 6): K5R translates the @register order of pack.py / unpack.py and the guard of every registered handler (try/except-return-None and suppress() as `_raises(...)` pseudo-tests, the Discriminator loop of unpack_dataclass as an any(...) pseudo-test); every position of a path case carries the valuation of ALL handler tests computed with the library's predicates on the real type object, and the walk of the whole translated registry chooses the handler (dataclass handler before the chains, the handlers between the chains declining: proved from the translation, C10_registry_dataclass / C10_registry_chains); K5R-registry-walk-vs-real-registry walks the REAL PackerRegistry / UnpackerRegistry on real specs and compares the answering handler. Still hand-modelled: the valuation of a dataclass position of a path case is computed on a stand-in dataclass with the same mixin bases (the handlers registered before the dataclass handler look only at the class), Registry.get's loop itself is matched textually, and what a handler tagged `other` / `final` does is outside the model",
+        "RegistryWalk.compile_r (round 6): K110a translates the @register order of pack.py / unpack.py and the guard of every registered handler (try/except-return-None and suppress() as `_raises(...)` pseudo-tests, the Discriminator loop of unpack_dataclass as an any(...) pseudo-test); every position of a path case carries the valuation of ALL handler tests computed with the library's predicates on the real type object, and the walk of the whole translated registry chooses the handler (dataclass handler before the chains, the handlers between the chains declining: proved from the translation, C10_registry_dataclass / C10_registry_chains); K110a-registry-walk-vs-real-registry walks the REAL PackerRegistry / UnpackerRegistry on real specs and compares the answering handler. Still hand-modelled: the valuation of a dataclass position of a path case is computed on a stand-in dataclass with the same mixin bases (the handlers registered before the dataclass handler look only at the class), Registry.get's loop itself is matched textually, and what a handler tagged `other` / `final` does is outside the model",
         "value-dependent selection among Union members (which member packs/unpacks a value) is C11's subject: path cases always use the first member and a second member (int) that never accepts the value",
     ]
     ctx.assumptions += ["strategy values are pass_through, dicts with serialize/deserialize entries, or SerializationStrategy instances (other values are ignored by the code; covered only by the kernel validation)"]
@@ -1063,8 +1063,8 @@ def run(ctx: vlib.Ctx):
                                                  "C10_dispatch_named_tuple", "C10_dispatch_tuple", "C10_dispatch_list",
                                                  "C10_dispatch_typed_dict", "C10_dispatch_mapping"], kernels=["K5D"])
     br7 = ctx.theorems("props/C10_registry.vo", ["C10_registry_first_answer", "C10_registry_dataclass", "C10_registry_chains",
-                                                 "C10_positions_registry"], kernels=["K5", "K5P", "K8", "K5D", "K5R"])
-    proofs_ok = br.ok and br2.ok and br3.ok and br4.ok and br5.ok and br6.ok and br7.ok and all(ctx.kernel_report.get(k, {}).get("ok") for k in ("K5", "K5P", "K8", "K5R"))
+                                                 "C10_positions_registry"], kernels=["K5", "K5P", "K8", "K5D", "K110a"])
+    proofs_ok = br.ok and br2.ok and br3.ok and br4.ok and br5.ok and br6.ok and br7.ok and all(ctx.kernel_report.get(k, {}).get("ok") for k in ("K5", "K5P", "K8", "K110a"))
     if proofs_ok and not ctx.quick():
         # second opinion: the independent checker on the compiled property files
         with vlib.Lock("build"):
@@ -1217,12 +1217,12 @@ def paths_part(ctx: vlib.Ctx, proofs_ok: bool):
 
     done = False
     kr = ctx.kernel_report
-    if all(kr.get(k, {}).get("ok") for k in ("K5", "K5P", "K8", "K5D", "K5R")):
+    if all(kr.get(k, {}).get("ok") for k in ("K5", "K5P", "K8", "K5D", "K110a")):
         vb = vlib.coq_make(["theories/RegistryWalk.vo"])
         if vb.ok:
             done = compare("positions-real-classes-vs-registry-walk-compile-and-model",
                            "PyK_strat OptProj Strategies Positions K5Kernel K5PKernel Dispatch PositionsV RegistryWalk",
-                           "From VerifGen Require Import K5 K5D K5R.", cp.COQ_DEFS + cp.COQ_OK_REGISTRY,
+                           "From VerifGen Require Import K5 K5D K110a.", cp.COQ_DEFS + cp.COQ_OK_REGISTRY,
                            ["theories/RegistryWalk.vo"])
         else:
             ctx.notes.append("RegistryWalk.v does not build against the translated kernels: " + (vb.error or "")[:300])
@@ -1249,7 +1249,7 @@ def paths_part(ctx: vlib.Ctx, proofs_ok: bool):
 
 
 def registry_walk_validation(ctx: vlib.Ctx, n_terms: int):
-    """(T) tie of K5R (+ K5D): for real type objects the REAL registries (PackerRegistry / UnpackerRegistry of the
+    """(T) tie of K110a (+ K5D): for real type objects the REAL registries (PackerRegistry / UnpackerRegistry of the
     library) are walked on a real ValueSpec of a real CodeBuilder - which registered handler is the first to answer -
     and the translated walk (RegistryWalk.walk_d) under the valuation of the handlers' own tests for that type
     (library predicates) must name the same handler."""
@@ -1271,7 +1271,7 @@ def registry_walk_validation(ctx: vlib.Ctx, n_terms: int):
     from mashumaro.core.meta.types.unpack import UnpackerRegistry
     from mashumaro.types import GenericSerializableType, SerializableType
     from harness.props import c10_paths as cp
-    name = "K5R-registry-walk-vs-real-registry"
+    name = "K110a-registry-walk-vs-real-registry"
     rng = ctx.rng
 
     @dataclass
@@ -1359,8 +1359,8 @@ def registry_walk_validation(ctx: vlib.Ctx, n_terms: int):
             cases.append(f"({'Ser' if side == 'pack' else 'De'}, [{'; '.join(vlib.coq_str(x) for x in vals)}], {vlib.coq_str(real)})")
             descr.append(f"{side} {what} -> real handler {real}")
             ctx.hist("registry_walk_handler", real or "none")
-    if not all(ctx.kernel_report.get(k, {}).get("ok") for k in ("K5D", "K5R")):
-        ctx.correspondence(name, len(cases), -1, "K5R / K5D was not translated")
+    if not all(ctx.kernel_report.get(k, {}).get("ok") for k in ("K5D", "K110a")):
+        ctx.correspondence(name, len(cases), -1, "K110a / K5D was not translated")
         return
     defs = """
 Definition memv (l: list string) (t: string) : bool := existsb (String.eqb t) l.
@@ -1368,15 +1368,15 @@ Definition walk_ok (c: dir * list string * string) : bool :=
   match c with (d, vals, real) => String.eqb (fst (walk_d d (memv vals))) real end.
 """
     bad, log = vlib.coq_bad_idx("c10_regwalk", "PyK_strat OptProj Strategies Positions Dispatch PositionsV RegistryWalk",
-                                "From VerifGen Require Import K5D K5R.", defs, cases, "walk_ok", "dir * list string * string",
+                                "From VerifGen Require Import K5D K110a.", defs, cases, "walk_ok", "dir * list string * string",
                                 shard=150, needs=["theories/RegistryWalk.vo"])
     if bad is None:
         ctx.correspondence(name, len(cases), -1, log)
-        ctx.not_shown("translation validation K5R (registry walk)", log)
+        ctx.not_shown("translation validation K110a (registry walk)", log)
     else:
         ctx.correspondence(name, len(cases), len(bad), str([descr[i] for i in bad[:8]]))
         if bad:
-            ctx.not_shown("translation validation K5R (registry walk)", f"cases {[descr[i] for i in bad[:8]]}")
+            ctx.not_shown("translation validation K110a (registry walk)", f"cases {[descr[i] for i in bad[:8]]}")
     ctx.count(n=len(cases))
 
 
